@@ -8,10 +8,11 @@ Driver handler for C10 (tsquery is type-sound).  Case grammar and observation fo
            no record pulled during Execute; unique non-empty URNs, valid types; every row has one cell per field,
            nil only under a not-required field, dynamic Go type = declared type; strictly increasing timestamps;
            and a query the reference type checker rejects must have been rejected.
-  The stream filters (aligner of both packages with/without fill mode, delta, rate; fixed alignment periods) are
-  ordinary `q` cases since they are part of the model (`RDs.xfiltered` / `DDs.xfiltered`, chains via `chainR`/`chainD`).
-  X cases (outside the model: aligner filters over CALENDAR alignment periods): model = the observation; only the
-  spec predicate is evaluated.
+  The stream filters (aligner of both packages with/without fill mode, delta, rate; fixed AND calendar alignment
+  periods, `PeriodK`) are ordinary `q` cases since they are part of the model (`RDs.xfiltered` / `DDs.xfiltered`, chains
+  via `chainR`/`chainD`); a calendar aligner carries its zone's offset table (`parseAlign` in Drive/QueryIO.lean).
+  X cases (the table-less form of a calendar aligner; no longer generated): model = the observation; only the spec
+  predicate is evaluated.
 -/
 namespace ShpanVerif.Drive.C10
 open ShpanVerif.Util ShpanVerif.Model.Query ShpanVerif.Drive.QueryIO
